@@ -17,7 +17,8 @@ namespace irx {
     std::vector<int> allocas;
   };
 
-  struct Dec { bool taken, both; };
+  struct Dec { bool taken, both; const void * site = nullptr; unsigned hash = 0; uint64_t value = 0; };
+  static unsigned strhash(const z3::expr & e) { if (!getenv("IRX_DEBUG")) return 0; std::string s = e.to_string(); unsigned h = 2166136261u; for (char c : s) h = (h ^ (unsigned char)c) * 16777619u; return h; }
 
   struct Engine
   {
@@ -37,10 +38,12 @@ namespace irx {
     std::vector<Frame> stack;
     // path exploration
     std::vector<char> prefix;
+    std::vector<uint64_t> prefix_vals; // values chosen by concretise() at the corresponding decision of the discovering run
     size_t pos = 0;
     std::vector<Dec> decs;
     std::map<const void *, int> site_hits;
     std::unordered_map<unsigned, bool> dcache;
+    std::vector<z3::expr> dkeep; // keeps decided conditions alive so that their AST ids stay valid cache keys
     long insts_path = 0;
     // nondet inputs of the current path (creation order)
     struct Input { std::string name; int sym; unsigned bits; bool fp; };
@@ -126,18 +129,20 @@ namespace irx {
       bool d;
       if (pos < prefix.size()) {
         d = prefix[pos] != 0;
-        decs.push_back({d, false});
+        decs.push_back({d, false, site, strhash(c)});
       } else {
         bool st_ = check(c) != z3::unsat;
         bool sf_ = st_ ? (check(!c) != z3::unsat) : true;
         if (!st_ && !sf_) throw PathEnd{"infeasible"};
         d = st_;
         if (st_ && sf_) st.forks++;
-        decs.push_back({d, st_ && sf_});
+        decs.push_back({d, st_ && sf_, site, strhash(c)});
       }
+      if (getenv("IRX_TRACE")) std::cerr << "path " << st.paths << " dec#" << pos << (pos < prefix.size() ? " [prefix] " : " [new] ") << d << " both=" << decs.back().both << " site=" << site << " " << c.to_string().substr(0, 120) << "\n";
       pos++;
       pc.push_back(d ? c : !c);
       dcache[c.id()] = d;
+      dkeep.push_back(c);
       return d;
     }
 
@@ -188,6 +193,8 @@ namespace irx {
     {
       z3::model m(ctx);
       z3::check_result r = check(ctx.bool_val(true), &m);
+      if (r != z3::sat && getenv("IRX_DEBUG")) { std::cerr << "PC not sat (" << r << ") at event " << what << "\n"; for (auto & a : pc) std::cerr << "  " << a << "\n"; }
+      if (r == z3::unsat) throw Fatal{"engine inconsistency: event '" + what + "' on a path whose condition is unsatisfiable"};
       emit(type, what, r == z3::sat ? &m : nullptr);
     }
 
